@@ -9,7 +9,7 @@ prop=$(/venv/bin/python -c "import json;print(json.load(open('$d/meta.json'))['p
 c=${2:-$prop}
 git -C $WT checkout -q -- . && git -C $WT apply $PWD/$d/patch.diff || { echo "patch does not apply"; exit 2; }
 t0=$(date +%s)
-ONSAGER_REPO=$WT ./check $c --tier ${TIER:-quick} > /tmp/seeddev_$s.log 2>&1; rc=$?
+VERIF_REPLAY_DIR=/verif/replays/$s ONSAGER_REPO=$WT ./check $c --tier ${TIER:-quick} > /tmp/seeddev_$s.log 2>&1; rc=$?
 t1=$(date +%s)
 git -C $WT checkout -q -- .
 echo "$s	$c	${TIER:-quick}	exit=$rc	$((t1-t0))s	$(grep -c '^VIOLATION' /tmp/seeddev_$s.log) violation-lines"
